@@ -23,7 +23,8 @@
                       `C05/user-file-named-like-temp`, seen from the other side;
     4. `not_a_tree`   the destination map has an entry without its parents — not a file system;
     5. hard-link group members under `-H` (`linkFile`/`relinkFile`) — outside the step level by
-       design (`isLinkTask`, C13); excluded by `noLinkMember` / `NoLinkGroups`.
+       design (`isLinkTask`: creates AND updates of multiply-named files, C13); excluded by
+       `noLinkMember` / `NoLinkTasks`.
 -/
 import SyModel.Lemmas.StepsRefine
 import SyModel.Props.C05
@@ -102,13 +103,16 @@ theorem plan_no_update_dir (cfg : Cfg) (scan : List SEntry) (dst : Map DNode) :
     ∀ t ∈ plan cfg scan dst, t.act = .update → t.payload ≠ .dir :=
   Engine.plan_no_update_dir cfg scan dst
 
-/-- `RunOK` for a planned run from its four substantial hypotheses and `-H` off / no groups. -/
+/-- `RunOK` for a planned run from its four substantial hypotheses and: no task of the plan goes
+    through the hard-link protocol (`NoLinkTasks`: exactly the tasks `taskLists` filters out; implied
+    by `-H` off, `noLinkTasks_of_hardlinks_off`, and by `NoLinkGroups`, `noLinkTasks_of_noLinkGroups`;
+    up-to-date members of link groups, planned as `skip`, are allowed). -/
 theorem plan_runOK (cfg : Cfg) (sfx : String) (scan : List SEntry) (dst : Map DNode)
     (hok : PlanOK (plan cfg scan dst)) (hfresh : TempFresh sfx (plan cfg scan dst) (ofMap dst))
     (hclosed : Closed dst)
     (hparents : ∀ t ∈ plan cfg scan dst, t.writes →
       ∀ q ∈ ancestors t.rel, dst.get? q = none ∨ dst.get? q = some .dir)
-    (hnl : NoLinkGroups cfg (plan cfg scan dst)) : RunOK cfg sfx (plan cfg scan dst) dst :=
+    (hnl : NoLinkTasks cfg (plan cfg scan dst)) : RunOK cfg sfx (plan cfg scan dst) dst :=
   ⟨hok, hfresh, hclosed, hparents, Engine.plan_no_update_dir cfg scan dst, hnl⟩
 
 /-- **Refinement of `run`.**  For a planned run that the deletion guard does not refuse, the
@@ -188,7 +192,7 @@ theorem refines_counterexample_enotdir :
   revert this; decide
 
 /-- The same situation as a whole planned run — a REACHABLE input: the plan is `create d`,
-    `create d/x`; `PlanOK`, `TempFresh`, `Closed`, `NoLinkGroups` all hold and the guard does not
+    `create d/x`; `PlanOK`, `TempFresh`, `Closed`, `NoLinkTasks` all hold and the guard does not
     refuse, only `RunOK.parents` fails.  Both entry-level tasks fail and the destination keeps the
     file `d` alone (what the program does: two errors, exit 1); the sequential step-level run ends
     with a file `d/x` below the file `d`. -/
@@ -197,7 +201,7 @@ theorem run_refines_counterexample_enotdir :
     let dst : Map DNode := [(["d"], .file ⟨7, 3, 4, [], 1⟩)]
     (plan cfg0 scan dst).map (fun t => (t.act, t.rel)) = [(.create, ["d"]), (.create, ["d", "x"])] ∧
     PlanOK (plan cfg0 scan dst) ∧ TempFresh ".sy.tmp" (plan cfg0 scan dst) (ofMap dst) ∧ Closed dst ∧
-    NoLinkGroups cfg0 (plan cfg0 scan dst) ∧ (run cfg0 scan dst 100).refused = false ∧
+    NoLinkTasks cfg0 (plan cfg0 scan dst) ∧ (run cfg0 scan dst 100).refused = false ∧
     (run cfg0 scan dst 100).errors = [(.create, ["d"]), (.create, ["d", "x"])] ∧
     ofMap (run cfg0 scan dst 100).dst ["d", "x"] = none ∧
     applyAll (taskLists cfg0 5000 1000 ".sy.tmp" (fun _ => {}) dst (plan cfg0 scan dst)).flatten (ofMap dst)
@@ -207,7 +211,7 @@ theorem run_refines_counterexample_enotdir :
   · exact ⟨by decide, by decide, by decide⟩
   · exact ⟨by decide, by decide⟩
   · exact closed_of_closedB (by decide)
-  · intro t _ m n _ h; cases h
+  · exact noLinkTasks_of_hardlinks_off _ rfl
 
 /-- `Refine/update-dir` — `TaskFits.noUpdateDir`.  An `update` that carries a directory: the entry
     level runs `create_dir_all`, the step level — like `Transferrer::update`, which answers
@@ -248,17 +252,19 @@ theorem refines_counterexample_not_a_tree :
 /-- `Refine/link-member` — `TaskFits.noLinkMember`.  Under `-H`, a later member of a source
     hard-link group is not written but linked to the first member's destination
     (`transfer_link_member` → `relinkFile`); the step lists know nothing of the link map (hard-link
-    tasks are outside the free interleaving by design: `isLinkTask`, C13).  Here the first member's
-    destination holds content 9, the task's source content is 1. -/
+    tasks — creates and updates alike — are outside the free interleaving by design: `isLinkTask`,
+    C13; this task is one, so `taskLists` drops it and `stepsOf` is applied by hand here).  The first
+    member's destination holds content 9, the task's source content is 1. -/
 theorem refines_counterexample_link_member :
     let cfgH : Cfg := { cfg0 with hardlinks := true }
     let dst : Map DNode := [(["first"], .file ⟨9, 4, 44, [], 50⟩), (["second"], .file ⟨8, 3, 33, [], 51⟩)]
     let w : World := { dst := dst, linkMap := [(5, ["first"], 50)], nextIno := 100, bytes := 0 }
     let t : Task := ⟨.update, ["second"], .file ⟨1, 10, 200, [], 5⟩ 2⟩
+    isLinkTask cfgH t = true ∧
     ofMap (taskDst cfgH w t) ["second"] = some (.file 9 4 44) ∧
     applyAll (stepsOf cfgH 5000 1000 ".sy.tmp" (dst.get? t.rel) t) (ofMap dst) ["second"] =
       some (.file 1 10 200) := by
-  refine ⟨by decide, by decide⟩
+  refine ⟨by decide, by decide, by decide⟩
 
 /-! ### non-vacuity: the hypotheses hold on a small concrete plan and the conclusion is about it -/
 
@@ -271,7 +277,7 @@ theorem closed : Closed C05.Example.dst := closed_of_closedB (by decide)
 /-- `RunOK` holds for C05's example plan: create `d`, `d/a`, `d/b`, update `big` (temp + rename) -/
 theorem runOK : RunOK cfg0 Generated.TEMP_SUFFIX (plan cfg0 scan dst) dst :=
   plan_runOK cfg0 _ scan dst C05.example_planOK C05.example_tempFresh closed (by decide)
-    (by intro t _ m n _ h; cases h)
+    (noLinkTasks_of_hardlinks_off _ rfl)
 
 /-- the guard does not refuse it -/
 theorem not_refused : (run cfg0 scan dst 100).refused = false := by decide
@@ -283,7 +289,7 @@ theorem fits_big : TaskFits cfg0 5000 Generated.TEMP_SUFFIX {} (w0 dst)
   tree := by decide
   tempFree := by decide
   noUpdateDir := by decide
-  noLinkMember := by intro m n _ h; cases h
+  noLinkMember := by intro _ m n _ h; cases h
 
 /-- … and for the creation of `d/a`, whose parent does not exist yet (full copy after `mkdir d`) -/
 theorem fits_da : TaskFits cfg0 5000 Generated.TEMP_SUFFIX {} (w0 dst)
@@ -292,7 +298,7 @@ theorem fits_da : TaskFits cfg0 5000 Generated.TEMP_SUFFIX {} (w0 dst)
   tree := by decide
   tempFree := by decide
   noUpdateDir := by decide
-  noLinkMember := by intro m n _ h; cases h
+  noLinkMember := by intro _ m n _ h; cases h
 
 /-- `task_refines` applied: the seven system calls of `create d/a` yield the entry-level result,
     which holds `d` and the finished file -/
@@ -313,7 +319,7 @@ example :
     applyAll (stepsOf cfg0 5000 1000 Generated.TEMP_SUFFIX (dst'.get? t.rel) t) (ofMap dst') = ofMap dst' := by
   intro dst' t
   have hf : TaskFits cfg0 5000 Generated.TEMP_SUFFIX {} (w0 dst') t :=
-    ⟨by decide, by decide, by decide, by decide, by intro m n _ h; cases h⟩
+    ⟨by decide, by decide, by decide, by decide, by intro _ m n _ h; cases h⟩
   exact ⟨by decide, task_refines_failed cfg0 5000 1000 _ {} (w0 dst') t hf (by decide)⟩
 
 /-- `stale_delete_refines` is about a real situation: `old/x` planned for deletion after `old` -/
@@ -352,6 +358,23 @@ example : NoLinkGroups { cfg0 with hardlinks := true } (plan cfg0 scan dst) := b
   have := this t ht
   unfold singleName at this
   rw [hp] at this; simpa using this
+
+/-- `NoLinkTasks` under `-H` with a real link group in the source: both names are up to date at
+    the destination (planned as `skip`), a third file is new.  `NoLinkGroups` fails here, `NoLinkTasks`
+    holds — the second run of a `-H` sync is covered. -/
+example :
+    let cfgH : Cfg := { cfg0 with hardlinks := true }
+    let scanH : List SEntry :=
+      [⟨["l1"], .file ⟨5, 10, 200, [], 77⟩ 2, 10, false⟩, ⟨["l2"], .file ⟨5, 10, 200, [], 77⟩ 2, 10, false⟩,
+       ⟨["new"], .file ⟨6, 3, 300, [], 78⟩ 1, 3, false⟩]
+    let dstH : Map DNode := [(["l1"], .file ⟨5, 10, 200, [], 9⟩), (["l2"], .file ⟨5, 10, 200, [], 9⟩)]
+    (plan cfgH scanH dstH).map (fun t => (t.act, t.rel)) = [(.skip, ["l1"]), (.skip, ["l2"]), (.create, ["new"])] ∧
+    NoLinkTasks cfgH (plan cfgH scanH dstH) ∧ ¬ NoLinkGroups cfgH (plan cfgH scanH dstH) := by
+  intro cfgH scanH dstH
+  refine ⟨by decide, by unfold NoLinkTasks; decide, ?_⟩
+  intro h
+  have := h ⟨.skip, ["l1"], .file ⟨5, 10, 200, [], 77⟩ 2⟩ (by decide) _ _ rfl rfl
+  omega
 
 end Example
 
